@@ -29,7 +29,7 @@ Record mshared := {
   allpopped : list (nat * msg);            (* every pop from a sub-port: (sub-port, message), in order *)
   ext : list msg;                          (* everything the MultiPort's deque was ever extended with *)
   mrecvd : list (tid * msg);               (* every pop from the MultiPort's deque, with the popping thread *)
-  cur_acc : list msg                       (* what the thread that is sweeping has collected so far *)
+  cur_acc : list msg                       (* what the thread that is sweeping has popped from the sub-ports so far in this sweep *)
 }.
 Definition mcfg := (mshared * (tid -> mthread))%type.
 
@@ -71,7 +71,7 @@ Definition poll_step (s : mshared) (t : tid) (i : nat) (p : pc) : option (mshare
   | RPop1 => match mq s l with
              | [] => Some (s, inl (Raised IndexError))
              | m :: r => Some ({| mlk := mlk s; mq := updf (mq s) l r; msleeps := msleeps s; nsubs := nsubs s; msent := msent s;
-                                  allpopped := allpopped s ++ [(i, m)]; ext := ext s; mrecvd := mrecvd s; cur_acc := cur_acc s |}, inl (RRel1 (Some m)))
+                                  allpopped := allpopped s ++ [(i, m)]; ext := ext s; mrecvd := mrecvd s; cur_acc := cur_acc s ++ [m] |}, inl (RRel1 (Some m)))
              end
   | RRel1 r => Some (m_set_lock s l None, match r with Some m => inr (Some m) | None => inl LAcq end)
   | LAcq => if m_can s l t then Some (m_set_lock s l (Some t), inl LBool) else None
@@ -79,7 +79,7 @@ Definition poll_step (s : mshared) (t : tid) (i : nat) (p : pc) : option (mshare
   | LPop => match mq s l with
             | [] => Some (s, inl (Raised IndexError))
             | m :: r => Some ({| mlk := mlk s; mq := updf (mq s) l r; msleeps := msleeps s; nsubs := nsubs s; msent := msent s;
-                                 allpopped := allpopped s ++ [(i, m)]; ext := ext s; mrecvd := mrecvd s; cur_acc := cur_acc s |}, inl (LRel (Some m) false))
+                                 allpopped := allpopped s ++ [(i, m)]; ext := ext s; mrecvd := mrecvd s; cur_acc := cur_acc s ++ [m] |}, inl (LRel (Some m) false))
             end
   | LRel r _ => Some (m_set_lock s l None, inr r)
   | _ => None
@@ -110,7 +110,7 @@ Definition mstep_thread (s : mshared) (t : tid) (th : mthread) : option (mshared
       | None => None
       | Some (s', inl (Raised e)) => Some (s', mset_pc th (MRaised e))
       | Some (s', inl p') => Some (s', mset_pc th (MSweep i p' acc))
-      | Some (s', inr (Some m)) => Some (m_set_acc s' (acc ++ [m]), mset_pc th (MSweep i AtStart (acc ++ [m])))     (* iter_pending polls again *)
+      | Some (s', inr (Some m)) => Some (s', mset_pc th (MSweep i AtStart (acc ++ [m])))     (* iter_pending polls again *)
       | Some (s', inr None) => Some (s', mset_pc th (next_sub s' i acc))
       end
   | MExtend acc => Some ({| mlk := mlk s; mq := updf (mq s) 0 (mq s 0 ++ acc); msleeps := msleeps s; nsubs := nsubs s; msent := msent s; allpopped := allpopped s;
